@@ -587,9 +587,9 @@ func checkDecoderPanicsAndLoops(p *core.Program, r *core.Report) {
 				okIdiom, why = true, "value created through reflection for a registered type"
 			case core.DependsOn(x, func(v ssa.Value) bool {
 				c, ok := v.(*ssa.Call)
-				return ok && (core.CalleeName(c) == "sync.Map.Load" || core.CalleeName(c) == "sync.Map.LoadOrStore")
+				return ok && (core.CalleeName(c) == "sync.Map.Load" || core.CalleeName(c) == "sync.Map.LoadOrStore" || core.CalleeName(c) == "sync.Pool.Get")
 			}):
-				okIdiom, why = true, "value stored by this package in its own sync.Map"
+				okIdiom, why = true, "value stored by this package in its own sync.Map / sync.Pool (its dynamic type does not depend on input)"
 			default:
 				// guarded by a preceding comma-ok assertion / type switch on the same value
 				for _, c := range core.DominatingConds(ta.Block()) {
